@@ -1,9 +1,33 @@
 package verifsim
 
-import "os"
+import (
+	"io"
+	"os"
+	"runtime"
+	"syscall"
+)
 
-// Stdio is the simulated stdin/stdout of the stdio service.
-type Stdio struct{}
+// Stdio is the simulated stdin/stdout of the stdio service: two in-bubble byte pipes
+// with seeded fragmentation, EOF at an arbitrary byte offset and EPIPE. The harness's
+// protocol client sits at the other end.
+type Stdio struct {
+	in       chan []byte
+	out      chan []byte
+	rest     []byte
+	Frag     *Tape // fragment sizes
+	Epipe    bool  // writes fail from now on
+	Exited   int   // 1 + exit code once the service called os.Exit
+	inClosed bool
+	BytesIn  int
+	BytesOut int
+	Reads    int
+	ShortReads int
+}
+
+func (io_ *Stdio) init() {
+	io_.in = make(chan []byte, 1<<14)
+	io_.out = make(chan []byte, 1<<14)
+}
 
 type stdinT struct{}
 type stdoutT struct{}
@@ -12,15 +36,118 @@ type stdoutT struct{}
 var Stdin = &stdinT{}
 var Stdout = &stdoutT{}
 
+func curStdio() *Stdio {
+	if s := active; s != nil {
+		return s.cfg.Stdio
+	}
+	return nil
+}
+
 func (*stdinT) Read(b []byte) (int, error) {
-	return os.Stdin.Read(b)
+	st := curStdio()
+	if st == nil {
+		return os.Stdin.Read(b)
+	}
+	Yield("stdio", "read<")
+	if len(st.rest) == 0 {
+		frag, ok := <-st.in
+		Yield("stdio", "read>")
+		if !ok {
+			return 0, io.EOF
+		}
+		st.rest = frag
+	}
+	n := copy(b, st.rest)
+	st.rest = st.rest[n:]
+	st.Reads++
+	return n, nil
 }
 
 func (*stdoutT) Write(b []byte) (int, error) {
-	return os.Stdout.Write(b)
+	st := curStdio()
+	if st == nil {
+		return os.Stdout.Write(b)
+	}
+	Yield("stdio", "write")
+	if st.Epipe {
+		return 0, &os.PathError{Op: "write", Path: "/dev/stdout", Err: syscall.EPIPE}
+	}
+	st.BytesOut += len(b)
+	st.out <- append([]byte(nil), b...)
+	return len(b), nil
 }
 
-// Exit replaces os.Exit in cmd/esbuild/service.go.
+// Exit replaces os.Exit in cmd/esbuild/service.go. In a simulation the calling task
+// ends; the harness treats the session as over.
 func Exit(code int) {
-	os.Exit(code)
+	st := curStdio()
+	if st == nil {
+		os.Exit(code)
+	}
+	st.Exited = code + 1
+	runtime.Goexit()
+}
+
+// ---- the client's side ----
+
+// Send delivers b to the service's stdin in seeded fragments (1 byte ... everything).
+func (st *Stdio) Send(b []byte) {
+	for len(b) > 0 {
+		n := len(b)
+		switch st.Frag.Next(6) {
+		case 1:
+			n = 1
+		case 2:
+			n = 1 + st.Frag.Next(8)
+		case 3:
+			n = 1 + st.Frag.Next(64)
+		case 4:
+			n = 1 + st.Frag.Next(len(b))
+		case 5:
+			n = 4 // exactly the length prefix
+		}
+		if n > len(b) {
+			n = len(b)
+		}
+		if n < len(b) {
+			st.ShortReads++
+		}
+		Yield("stdio", "send")
+		if st.inClosed {
+			return
+		}
+		st.in <- append([]byte(nil), b[:n]...)
+		st.BytesIn += n
+		b = b[n:]
+	}
+}
+
+// CloseIn closes the service's stdin (EOF after everything sent so far).
+func (st *Stdio) CloseIn() {
+	if !st.inClosed {
+		st.inClosed = true
+		close(st.in)
+	}
+}
+
+// CloseOut is called by the harness when the service loop has returned.
+func (st *Stdio) CloseOut() { close(st.out) }
+
+// Recv blocks until the service wrote something; ok=false when the service loop ended.
+func (st *Stdio) Recv() ([]byte, bool) {
+	Yield("stdio", "recv<")
+	b, ok := <-st.out
+	Yield("stdio", "recv>")
+	return b, ok
+}
+
+// TryRecv returns what the service has written so far, if anything.
+func (st *Stdio) TryRecv() ([]byte, bool, bool) {
+	Yield("stdio", "tryrecv")
+	select {
+	case b, ok := <-st.out:
+		return b, true, ok
+	default:
+		return nil, false, true
+	}
 }
